@@ -152,6 +152,9 @@ def operand_provenance_family(rng):
     sources = {"var": G.var("ক"), "group": G.grp(G.var("ক")), "slot": G.idx(G.var("ধারক"), G.num(0)), "field": G.idx(G.var("খাতা"), G.s("ভ")),
                "identity": G.call("একই", G.var("ক")), "builder": G.call("যোগ", G.var("ক"), G.num(4)), "getter": G.call("গ্লোবাল"),
                "element-getter": G.call("প্রথম", G.var("ধারক")), "nested-call": G.call("একই", G.call("একই", G.var("ক")))}
+    # operands that are reachable ONLY through another container (no variable holds them)
+    sources.update({"nested-only-slot": G.idx(G.var("টেবিল"), G.num(0)), "nested-only-field": G.idx(G.var("নথিপত্র"), G.s("সারি")),
+                    "nested-only-getter": G.call("প্রথম", G.var("টেবিল")), "nested-only-deep": G.idx(G.idx(G.var("গভীর"), G.num(0)), G.num(0))})
     others = {"lit": G.lst(G.num(5), G.num(6)), "empty": G.lst(), "same": None, "call-fresh": G.call("_স্ট্রিং-স্প্লিট", G.s("p,q"), G.s(","))}
     n = 0
     for sk, src in sources.items():
@@ -160,7 +163,10 @@ def operand_provenance_family(rng):
                 r = rng.fork(f"op-{sk}-{ok}-{side}")
                 o = src if oth is None else oth
                 e = G.bin_("+", src, o) if side == "left" else G.bin_("+", o, src)
-                prog = list(funcs) + [("decl", "ক", G.lst(G.num(1), G.num(2), G.num(3))), ("decl", "ধারক", G.lst(G.var("ক"), G.num(0))),
+                prog = list(funcs) + [("decl", "টেবিল", G.lst(G.lst(G.num(1), G.num(2)), G.lst(G.num(3), G.num(4)))),
+                                      ("decl", "নথিপত্র", G.rec((G.s("সারি"), G.lst(G.num(10), G.num(20))))),
+                                      ("decl", "গভীর", G.lst(G.lst(G.lst(G.num(7), G.num(8))))),
+                                      ("decl", "ক", G.lst(G.num(1), G.num(2), G.num(3))), ("decl", "ধারক", G.lst(G.var("ক"), G.num(0))),
                                       ("decl", "খাতা", G.rec((G.s("ভ"), G.var("ক")))),
                                       ("decl", "ফল", e), ("print", G.var("ক")), ("print", G.var("ফল")),
                                       # fresh containers by every allocation route
@@ -175,7 +181,10 @@ def operand_provenance_family(rng):
                                       ("expr", G.call("_লিস্ট-পপ", G.var("ক"), G.num(0))), ("assign", "ক", [G.num(0)], G.num(9)),
                                       ("expr", G.call("_লিস্ট-পুশ", G.var("ক"), G.num(0), G.num(7))),
                                       ("print", G.var("ক")), ("print", G.var("ফল")), ("print", G.var("গ")), ("print", G.var("ঘ")), ("print", G.var("ঙ")),
-                                      ("print", G.var("চ")), ("print", G.var("ছ"))]
+                                      ("print", G.var("চ")), ("print", G.var("ছ")),
+                                      # the same expression once more (an in-place shortcut accumulates), then the containers
+                                      ("decl", "ফল২", e), ("print", G.var("ফল২")), ("print", G.var("টেবিল")), ("print", G.var("নথিপত্র")), ("print", G.var("গভীর")),
+                                      ("print", G.call("_লিস্ট-লেন", G.idx(G.var("টেবিল"), G.num(0))))]
                 out.append(prog_case("operand-provenance", prog, rng=r, info={"source": sk, "other": ok, "side": side}))
                 n += 1
     return out
